@@ -136,6 +136,10 @@ func (f *File) WriteAt(p []byte, off int64) (n int, err error) {
 	if evicted {
 		return 0, ErrEvicted
 	}
+	if len(p) == 0 {
+		// Like a file, an empty write never extends the blob, even past the end.
+		return 0, nil
+	}
 
 	end := int(off) + len(p)
 	buf, resized := resizeSliceIfNecessary(buf, end)
